@@ -20,8 +20,8 @@
 import TypelibModel.Drv.Core
 import TypelibModel.Model.Ctx
 open Lean
-namespace Typelib.Drv
-open Typelib.TCtx
+namespace Typelib.Drv.CtxDrv
+open Typelib.TCtx Typelib.Drv
 
 def baseOfString : String â†’ Except String Base
   | "int" => .ok .int
@@ -130,6 +130,11 @@ def enumWalk (keys : List Key) : Nat â†’ Ctx Key Int â†’ Spec Key Int â†’ Nat â†
       let rs := stepS keyOps S op
       let acc := { conc := acc.conc.push (outCode rc.2), spec := acc.spec.push (outCode rs.2), n := acc.n + 1 }
       enumWalk keys d rc.1 rs.1 (pos + 1) acc) acc
+
+end Typelib.Drv.CtxDrv
+
+namespace Typelib.Drv
+open Typelib.TCtx Typelib.Drv.CtxDrv
 
 def handleCtx (st : St) (op : String) (j : Json) : Option (Except String (St Ã— Json)) :=
   match op with
